@@ -111,6 +111,7 @@ package parse
 //@   requires typing: forall k int, l int {c.Patch[k], c.Patch[l]} :: 0 <= k && k < l && l < len(c.Patch) ==> c.Patch[k] != c.Patch[l]
 //@   at call (*parse.parser).parsePatchVersion#0 assert [C10,C13] the-before-side-is-parsed-from-the-minus-text: arg2 == ret("parse.splitPatch", 0, 0)
 //@   at call (*parse.parser).parsePatchVersion#1 assert [C10,C13] the-after-side-is-parsed-from-the-plus-text: arg2 == ret("parse.splitPatch", 0, 1)
+//@   ensures [C04,C13] the-patch-extends-from-its-first-line-to-just-past-its-last: err == nil ==> len(c.Patch) > 0 && patch.StartPos == old(c.Patch[0].StartPos) && patch.EndPos == old(c.Patch[len(c.Patch) - 1].StartPos + len(c.Patch[len(c.Patch) - 1].Text))
 //@   ensures [C10] each-side-is-the-file-its-text-parsed-to: err == nil ==> patch != nil && patch.Minus == ret("(*parse.parser).parsePatchVersion", 0) && patch.Plus == ret("(*parse.parser).parsePatchVersion", 1)
 //@   at call (*parse.parser).parsePatchVersion#0 set sideImports0 = result0.Imports
 //@   at call (*parse.parser).parsePatchVersion#0 set sidePackage0 = result0.Package
